@@ -4,6 +4,10 @@ import json, os, sys
 HERE = os.path.dirname(os.path.abspath(__file__))
 
 CHECKS = {
+ 'C18': dict(technique='runtime monitor: reference cleaning function + re.fullmatch oracle applied to every StringGrader call over 16 flag combinations x generated strings/edits, accept_any minimum grids, validation-pattern grids',
+             text='Exploration by runtime monitoring: each StringGrader outcome (grade, message, error class) over tens of thousands of generated (flags, expected, submission) triples is compared with an independent 20-line reference of the documented cleaning and with re.fullmatch; refusals are checked to take the form explain_minimums / explain_validation prescribe.',
+             note='Trusted: the reference cleaning function (written from the statement); R11 exclusions (non-U+0020 whitespace at the ends; runs of >=3 CR/LF without clean_spaces/strip_all).',
+             ref='DESIGN.md section 4, C18'),
  'C17': dict(technique='runtime monitor: closed-form schedule oracle over the exhaustive parameter grid x attempts -5..200; twin-grader differential (same grader without attempt credit) with recording author schedules',
              text='Exploration by runtime monitoring: every schedule value on the documented parameter grid (attempts -5..200) is checked online for range, monotonicity, first-attempt value and closed form; every grader call with the feature on is compared entry by entry with a twin grader without it (scaling, ok recomputation, zero grades, note presence/number/percentage, missing attempt).',
              note='Trusted: closed forms transcribed from docs/graders.md; 4-digit rounding of the credit as documented; reading R10 (attempts below 1 behave as attempt 1, also for direct schedule calls).',
